@@ -446,8 +446,12 @@ func c05FirstContact(r *ev.Run, g *rng.R, caseID string, pd predSpec, role, faul
 	if (reached || accepted) && !w.failed {
 		r.NonTrivial(fmt.Sprintf("%s/%s/%s/%s", pd.name, role, fault, peerKind))
 	}
-	if idxSample(caseID) {
-		r.Sample(map[string]any{"case": caseID, "steps": w.log})
+	if idxSample(caseID) || role == "V-initiates" {
+		steps := w.log
+		if len(steps) > 30 {
+			steps = steps[:30]
+		}
+		r.Sample(map[string]any{"case": caseID, "steps": steps})
 	}
 }
 
